@@ -74,12 +74,12 @@ def programs():
     for kind in ("Substring", "Extract"):
         out.append(("%s(b,u,u)" % kind, prog(ret_b(N(kind, "b", a=[argb(0), argu(1), argu(2)])), ["b4", "u4", "u4"])))
         for s_, e_ in ((0, 0), (0, 1), (1, 3), (2, 2), (0, 255), (0, 256), (255, 255), (255, 256), (256, 300), (3, 1)):
-            big = N("Op", "b", s="bzero", a=[N("Int", n=[1, 44])])            # 300 zero bytes
+            big = N("Op", "b", s="bzero", a=[N("Int", n=[2, 88])])            # 600 zero bytes
             src = N("Op", "b", s="concat", a=[argb(0), big])
             out.append(("%s const %d,%d" % (kind, s_, e_), prog(ret_b(N(kind, "b", a=[src, N("Int", n=_d(s_)), N("Int", n=_d(e_))])), ["b4"])))
     out.append(("Suffix(b,u)", prog(ret_b(N("Suffix", "b", a=[argb(0), argu(1)])), ["b4", "u4"])))
     for s_ in (0, 1, 9, 255, 256):
-        big = N("Op", "b", s="bzero", a=[N("Int", n=[1, 44])])
+        big = N("Op", "b", s="bzero", a=[N("Int", n=[2, 88])])
         out.append(("Suffix const %d" % s_, prog(ret_b(N("Suffix", "b", a=[N("Op", "b", s="concat", a=[argb(0), big]), N("Int", n=_d(s_))])), ["b4"])))
     out.append(("Replace(b,u,b)", prog(ret_b(N("Replace", "b", a=[argb(0), argu(1), argb(2)])), ["b4", "u4", "b3"])))
     # transaction / global reads with constant and computed indices
@@ -88,7 +88,7 @@ def programs():
     out.append(("Txn.accounts[computed]", prog(ret_b(N("TxnAS", "b", s="Accounts", a=[argu(0)])), ["u4"])))
     out.append(("Txn.assets[computed]", prog(N("TxnAS", "u", s="Assets", a=[argu(0)]), ["u4"])))
     out.append(("Txn fields", prog(ret_b(N("Nary", "b", s="concat", a=[N("Txn", "b", s="Sender"), N("Op", "b", s="itob", a=[N("Txn", "u", s="Fee")]),
-                                                                        N("Op", "b", s="itob", a=[N("Txn", "u", s="NumAppArgs")]), N("Txn", "b", s="Note")])), ["b3"])))
+                                                                        N("Op", "b", s="itob", a=[N("Txn", "u", s="TypeEnum")]), N("Txn", "b", s="Note")])), ["b3"])))
     out.append(("Global fields", prog(N("Nary", "u", s="+", a=[N("Global", "u", s="GroupSize"), N("Global", "u", s="Round"), N("Global", "u", s="MinTxnFee")]), [])))
     out.append(("Gtxn[computed].amount", prog(N("GtxnS", "u", s="Amount", a=[argu(0)]), ["u4"])))
     # MaybeValue: both results of ONE evaluation, read in either order
@@ -103,8 +103,8 @@ def programs():
     # inner transactions: fields in order, two transactions in one group, array fields appended
     itx = [N("ItxBegin", "n"), N("ItxField", "n", s="TypeEnum", a=[N("Int", n=[1])]), N("ItxField", "n", s="Amount", a=[argu(0)]),
            N("ItxField", "n", s="Receiver", a=[N("Txn", "b", s="Sender")]), N("ItxNext", "n"),
-           N("ItxField", "n", s="TypeEnum", a=[N("Int", n=[6])]), N("ItxField", "n", s="ApplicationArgs", a=[argb(1)]),
-           N("ItxField", "n", s="ApplicationArgs", a=[N("Bytes", "b", n=[1, 2])]), N("ItxSubmit", "n"), N("Int", n=[1])]
+           N("ItxField", "n", s="TypeEnum", a=[N("Int", n=[6])]), N("ItxField", "n", s="ApplicationID", a=[argu(0)]),
+           N("ItxField", "n", s="Note", a=[argb(1)]), N("ItxSubmit", "n"), N("Int", n=[1])]
     out.append(("InnerTxnBuilder group", prog(N("Seq", "u", a=itx), ["u4", "b3"])))
     return out
 
